@@ -7,3 +7,5 @@ func verifAwait(string, interface{}, func() bool) {}
 func verifClosed(<-chan struct{}) bool { return false }
 
 func verifReady(...bool) bool { return false }
+
+func verifPick(string, ...bool) int { return 0 }
